@@ -13,7 +13,7 @@ import (
 func init() {
 	mon.Register(&mon.Prop{
 		ID: "C12", Level: "exploration",
-		Rule:        "complete enumeration of all strings over alphabets of size 2/3/4 up to the stated lengths and over the byte alphabets {0x80,0xff} and {0xc3,0xa9,A} (strings that are not valid UTF-8) (every rotation of every string is itself in the enumeration) plus structured long strings (powers, powers with one letter changed, Fibonacci and Thue-Morse words, runs, tied tracts of the least letter, truncated tandem arrays, random) with a random rotation of each; non-trivial = length >= 2 and not all letters equal; distinct by hash of the string",
+		Rule:        "complete enumeration of all strings over alphabets of size 2/3/4 up to the stated lengths and over the byte alphabets {0x80,0xff} and {0xc3,0xa9,A} (strings that are not valid UTF-8) and {A, LF, CR} (every rotation of every string is itself in the enumeration) plus structured long strings (powers, powers with one letter changed, Fibonacci and Thue-Morse words, runs, tied tracts of the least letter, truncated tandem arrays, random; strings whose unique least tract stands at a chosen index as written - first, last, quarter, middle +/-1, 65536 - half of them longer than 65,536 bytes; alphabets with line-end and blank bytes) with a random rotation of each; non-trivial = length >= 2 and not all letters equal; distinct by hash of the string",
 		Assumptions: []string{"oracle: brute force over all rotations for n<=64, independent two-pointer minimal-rotation scan above; both cross-checked on every short string"},
 		Shards:      tierShards(8, 16), WatchdogSec: tierSecs(600, 3600),
 		Run: runC12,
@@ -83,7 +83,7 @@ func runC12(w *mon.W) {
 	}
 	// the last two alphabets are bytes that are not text: two bytes that never form valid UTF-8, and a lead
 	// byte, a continuation byte and a letter (some strings over them are valid UTF-8, most are not)
-	spaces := []space{{"aB", w.Pick(17, 21)}, {"ACG", w.Pick(11, 13)}, {"ACGT", w.Pick(9, 11)}, {"\x80\xff", w.Pick(13, 17)}, {"\xc3\xa9A", w.Pick(9, 11)}}
+	spaces := []space{{"aB", w.Pick(17, 21)}, {"ACG", w.Pick(11, 13)}, {"ACGT", w.Pick(9, 11)}, {"\x80\xff", w.Pick(13, 17)}, {"\xc3\xa9A", w.Pick(9, 11)}, {"A\n\r", w.Pick(9, 11)}}
 	const blk = 8192
 	idx := 0
 	var parts []string
@@ -123,7 +123,7 @@ func runC12(w *mon.W) {
 			continue
 		}
 		r := w.Rand(id)
-		alpha := []string{"AB", "ACGT", "ACGTRYSWKMBDHVN", "ab\x00\xff", "ACGTacgt", "\x80\xff", "\xc3\xa9\xbf\xfe"}[r.Intn(7)]
+		alpha := []string{"AB", "ACGT", "ACGTRYSWKMBDHVN", "ab\x00\xff", "ACGTacgt", "\x80\xff", "\xc3\xa9\xbf\xfe", "ACGT\n", "AT\r\n \t"}[r.Intn(9)]
 		var n int
 		switch r.Intn(4) {
 		case 0:
@@ -213,6 +213,45 @@ func runC12(w *mon.W) {
 				s = sb.String()
 			}
 			n = len(s)
+		}
+		if i%9 == 2 && len(alpha) > 1 {
+			// the least rotation begins at a chosen place of the string as written: one tract of the least letter, which
+			// occurs nowhere else, at the first or last index, at a quarter, at the middle and next to it, at 65536;
+			// half of these strings are longer than 65,536 bytes
+			kind = "placed-origin"
+			least := alpha[0]
+			for j := 1; j < len(alpha); j++ {
+				if alpha[j] < least {
+					least = alpha[j]
+				}
+			}
+			rest := strings.ReplaceAll(alpha, string(least), "")
+			if r.Intn(2) == 0 {
+				n = []int{65536, 65537, 65538, 70000 + r.Intn(30000), 99999, 100000, 131072, maxLen}[r.Intn(8)]
+				if n > maxLen {
+					n = maxLen
+				}
+			}
+			tract := 1 + r.Intn(4)
+			if n < tract+2 {
+				n = tract + 2
+			}
+			places := []int{0, 1, n/2 - 1, n / 2, n/2 + 1, n / 4, 3 * n / 4, n - tract, n - tract - 1, 65536, 65535, 32768, r.Intn(n)}
+			pos := places[r.Intn(len(places))]
+			if pos < 0 || pos+tract > n {
+				pos = n / 2
+				if pos+tract > n {
+					pos = 0
+				}
+			}
+			b := []byte(randString(r, rest, n))
+			for j := 0; j < tract; j++ {
+				b[pos+j] = least
+			}
+			s = string(b)
+			if pos == n/2 {
+				w.Add("placed_origin_at_the_middle_index", 1)
+			}
 		}
 		if i%9 == 8 {
 			// byte strings that are valid multi-byte UTF-8: the order that counts is still the order of bytes
